@@ -375,14 +375,67 @@ func c04(tier string, args []string) int {
 			atRest[n] = e
 		}
 	}
+	type rec04 struct {
+		key string
+		val []byte
+	}
+	var records []rec04
 	for it.Next() {
 		evals++
 		key := string(it.Key())
+		records = append(records, rec04{key, append([]byte(nil), it.Value()...)})
 		searchDoc(append([]byte(nil), it.Value()...), atRest, 3, "db["+key+"]", func(s, enc, where string) {
 			r.Violation("C04/plaintext-secret-at-rest/"+strings.Fields(s)[0], fmt.Sprintf("the database value %q contains the %s in plaintext (%s)", key, s, enc), map[string]string{"key": key, "secret": s})
 		})
 	}
 	it.Release()
+	// "stored only encrypted": two records sealed under one key stream give a secret away without
+	// the password as soon as the other plaintext is known (the public key is): for every pair of
+	// stored values, every secret s and every known plaintext k (machine 0's public key, the other
+	// secrets), at every offset within the first 160 bytes: a XOR b must not equal s XOR k
+	{
+		known := map[string][]byte{}
+		if pk, err := w.Airs[0].M.GetPubKey().MarshalBinary(); err == nil {
+			known["the machine's public key"] = pk
+		}
+		for n, e := range atRest {
+			known["the "+n] = e["raw"]
+		}
+		for i := 0; i < len(records); i++ {
+			for j := 0; j < len(records); j++ {
+				if i == j {
+					continue
+				}
+				a, b := records[i].val, records[j].val
+				for sn, se := range atRest {
+					sec := se["raw"]
+					for kn, kp := range known {
+						L := len(sec)
+						if len(kp) < L {
+							L = len(kp)
+						}
+						if L < 16 || kn == "the "+sn {
+							continue
+						}
+						evals++
+						for off := 0; off < 160 && off+L <= len(a) && off+L <= len(b); off++ {
+							hit := true
+							for x := 0; x < L; x++ {
+								if a[off+x]^b[off+x] != sec[x]^kp[x] {
+									hit = false
+									break
+								}
+							}
+							if hit {
+								r.Violation("C04/key-stream-reused-at-rest/"+strings.Fields(sn)[0], fmt.Sprintf("the stored records %q and %q are sealed under one key stream: their XOR at offset %d is the XOR of the %s and %s - the secret follows from the database files and public data, without the password", records[i].key, records[j].key, off, sn, kn), map[string]string{"record_a": records[i].key, "record_b": records[j].key, "secret": sn, "known": kn})
+								break
+							}
+						}
+					}
+				}
+			}
+		}
+	}
 	db.Close()
 	os.RemoveAll(dbCopy)
 
@@ -394,7 +447,7 @@ func c04(tier string, args []string) int {
 
 	r.Set("evaluations", evals)
 	r.Set("distinct_nontrivial", distinct)
-	r.Set("rule", "(a) every result operation of every machine (honest, repeated, garbled, reinit) and every board message searched for every secret in every encoding; (b) every (deal, machine key) pair; (c) a near-miss password alphabet against LoadKeysFromDB / GetBLSKeyrings and every database value searched for plaintext secrets; (d) every pair of rounds from a family on the same machines compared for equal group keys, shares and dealer coefficients; (e) every Schnorr signature in every result file of a machine across the ceremony and restart+replay in every deal order: no two with the same commitment R and different messages (else the key is recovered and compared)")
+	r.Set("rule", "(a) every result operation of every machine (honest, repeated, garbled, reinit) and every board message searched for every secret in every encoding; (b) every (deal, machine key) pair; (c) a near-miss password alphabet against LoadKeysFromDB / GetBLSKeyrings and every database value searched for plaintext secrets, every pair of stored records for a shared key stream (a XOR b = secret XOR known plaintext); (d) every pair of rounds from a family on the same machines compared for equal group keys, shares and dealer coefficients; (e) every Schnorr signature in every result file of a machine across the ceremony and restart+replay in every deal order: no two with the same commitment R and different messages (else the key is recovered and compared)")
 	return finish(r)
 }
 
